@@ -34,6 +34,22 @@ func c09Types() []aliasT {
 }
 
 // C09Programs enumerates (how the alias is made) x (where the update happens) x (observation).
+// c09RepeatedMaps: repetition copies a map; afterwards a key is deleted from (or added to) one copy or the original,
+// at the first, a middle and the last position of the key order, and every copy is printed and ranged over
+func c09RepeatedMaps() []string {
+	var out []string
+	for _, who := range []string{"arr[0]", "arr[1]", "m"} {
+		for _, key := range []string{"a", "b", "c"} {
+			out = append(out, "m := {a:1 b:2 c:3}\narr := [m] * 2\ndel "+who+" \""+key+"\"\nprint arr m\nfor k := range arr[0]\n    print k arr[0][k]\nend\nfor k := range arr[1]\n    print k arr[1][k]\nend\nfor k := range m\n    print k m[k]\nend\n"+who+".d = 4\nprint arr m (len arr[0]) (len arr[1]) (len m)\n")
+		}
+	}
+	out = append(out,
+		"m := {a:1 b:2 c:3}\narr := [[m]] * 2\nt := arr[1][0]\ndel t \"a\"\nprint arr m\n",
+		"m := {a:1 b:2 c:3}\nw := {in:m}\narr := [w] * 2\ndel arr[0].in \"b\"\nprint arr m w\n",
+		"m := {a:1 b:2 c:3}\narr := [m] * 2\nagain := arr * 2\ndel again[3] \"a\"\ndel arr[0] \"b\"\nprint again arr m\n")
+	return out
+}
+
 func C09Programs() []string {
 	var out []string
 	for _, t := range c09Types() {
@@ -195,7 +211,7 @@ func useAll(mk string) string {
 func RunC09(d *Driver) *Report {
 	r := NewReport("C09")
 	rng := Rng()
-	progs := C09Programs()
+	progs := append(C09Programs(), c09RepeatedMaps()...)
 	n := 1500
 	if Thorough() {
 		n = 40000
